@@ -6,6 +6,7 @@ import (
 	"strconv"
 	"strings"
 	"sync"
+	"time"
 
 	"github.com/yandex/pandora/examples/grpc/server"
 	"google.golang.org/grpc"
@@ -16,13 +17,15 @@ import (
 
 // GRPCTarget implements the repository's example TargetService (examples/grpc/server) with server
 // reflection.  Hello answers with the status the request itself asks for: name "code:<n>" makes the
-// call end with status.Error(codes.Code(n)) (n = 0: a normal HelloResponse).  Every call is counted.
+// call end with status.Error(codes.Code(n)) (n = 0: a normal HelloResponse); name "stall" is never answered
+// before the caller has given up.  Every call is counted.
 type GRPCTarget struct {
 	server.UnimplementedTargetServiceServer
 	srv   *grpc.Server
 	lis   net.Listener
 	mu    sync.Mutex
 	calls []string // "Hello:<name>" in arrival order
+	stop  chan struct{}
 }
 
 func NewGRPC() (*GRPCTarget, error) {
@@ -30,7 +33,7 @@ func NewGRPC() (*GRPCTarget, error) {
 	if err != nil {
 		return nil, err
 	}
-	t := &GRPCTarget{srv: grpc.NewServer(), lis: l}
+	t := &GRPCTarget{srv: grpc.NewServer(), lis: l, stop: make(chan struct{})}
 	server.RegisterTargetServiceServer(t.srv, t)
 	reflection.Register(t.srv)
 	go func() { _ = t.srv.Serve(l) }()
@@ -38,7 +41,7 @@ func NewGRPC() (*GRPCTarget, error) {
 }
 
 func (t *GRPCTarget) Addr() string { return t.lis.Addr().String() }
-func (t *GRPCTarget) Close()       { t.srv.Stop() }
+func (t *GRPCTarget) Close()       { close(t.stop); t.srv.Stop() }
 
 // Calls returns and clears the calls seen so far.
 func (t *GRPCTarget) Calls() []string {
@@ -53,6 +56,16 @@ func (t *GRPCTarget) Hello(ctx context.Context, req *server.HelloRequest) (*serv
 	t.mu.Lock()
 	t.calls = append(t.calls, "Hello:"+req.GetName())
 	t.mu.Unlock()
+	if req.GetName() == "stall" {
+		// Answer nothing while the caller may still be waiting.  ctx is NOT a signal for that: gRPC propagates the
+		// caller's deadline, so ctx fires here at the very moment the caller's own timer does, and an answer sent
+		// then can overtake the caller's DeadlineExceeded.  Only the end of the target (or 30 s) releases the handler.
+		select {
+		case <-t.stop:
+		case <-time.After(30 * time.Second):
+		}
+		return nil, status.Error(codes.Aborted, "stalled")
+	}
 	if rest, ok := strings.CutPrefix(req.GetName(), "code:"); ok {
 		n, err := strconv.Atoi(rest)
 		if err != nil {
